@@ -44,7 +44,11 @@ def confirm(name, prop, finding):
         import native_cli
         ok, info = native_cli.confirm_c15() if prop == "C15" else native_cli.confirm_c16()
         return bool(ok), info
-    ok, info = run(name)
+    args = ()
+    if name == "c11":
+        k = getattr(finding, "key", "") or ""
+        args = ("recall-action" if "ctor-recall-action" in k else "one-table" if "ctor-one-table" in k else "payoff" if "ctor-payoff" in k else "table",)
+    ok, info = run(name, args)
     return bool(ok), info
 
 
